@@ -55,11 +55,11 @@ Print Assumptions C13_gen_write.
    of the model's cycle: it returns, or its LAST act is the nested s.Warn (then the model of Warn -
    gate, logContext's tail, printOut at Warn - continues), and that happens exactly when some
    attempt failed and the level is not Warn *)
-Theorem C13_gen_print_out : forall isls wres c lvl msg k kind fuel,
+Theorem C13_gen_print_out : forall (wget : Z -> list member) isls wres c lvl msg k kind fuel,
   let faults := fun i => snd (wres i) in
   let atts := fun tr' => stamp faults kind (writes_of tr') k in
   print_out_code (S fuel) c faults lvl kind k =
-  match Delivery.print_out (asm_ls isls) asm_logwr cell_writer (inner_ls isls) lw_as_list (lw_as_ls isls)
+  match Delivery.print_out (asm_ls isls) asm_logwr cell_writer (inner_ls isls) lw_as_list (lw_as_ls isls) wget
           (fun l => LWlist (dests c l)) wres lvl msg [] k with
   | PoReturn tr' k' => Normal (atts tr') k'
   | PoWarn tr' k' =>
@@ -68,17 +68,17 @@ Theorem C13_gen_print_out : forall isls wres c lvl msg k kind fuel,
       else Normal (atts tr') k'
   | PoOther _ _ => OutOfFuel
   end
-  /\ (forall tr' k', Delivery.print_out (asm_ls isls) asm_logwr cell_writer (inner_ls isls) lw_as_list (lw_as_ls isls)
+  /\ (forall tr' k', Delivery.print_out (asm_ls isls) asm_logwr cell_writer (inner_ls isls) lw_as_list (lw_as_ls isls) wget
           (fun l => LWlist (dests c l)) wres lvl msg [] k <> PoOther tr' k').
 Proof. exact gen_print_out. Qed.
 Print Assumptions C13_gen_print_out.
 
 (* the branches of printOut that dualWriter.Get never produces: nothing happens for a nil writer; a
    single writer that is not a list gets one Write (and SetLevel first if it asks for it) *)
-Theorem C13_gen_print_out_other : forall isls wres lvl msg tr k m,
-  Delivery.print_out (asm_ls isls) asm_logwr cell_writer (inner_ls isls) lw_as_list (lw_as_ls isls)
+Theorem C13_gen_print_out_other : forall (wget : Z -> list member) isls wres lvl msg tr k m,
+  Delivery.print_out (asm_ls isls) asm_logwr cell_writer (inner_ls isls) lw_as_list (lw_as_ls isls) wget
     (fun _ => LWnil) wres lvl msg tr k = PoReturn tr k
-  /\ Delivery.print_out (asm_ls isls) asm_logwr cell_writer (inner_ls isls) lw_as_list (lw_as_ls isls)
+  /\ Delivery.print_out (asm_ls isls) asm_logwr cell_writer (inner_ls isls) lw_as_list (lw_as_ls isls) wget
        (fun _ => LWone m) wres lvl msg tr k =
      (if snd (wres k) && negb (lvl =? 3) then PoWarn else PoReturn)
        (tr ++ (match asm_ls isls m with Some x => [EvSet x lvl] | None => [] end) ++ [EvWrite (member_id m)]) (S k).
